@@ -31,11 +31,12 @@ LEVEL_TEXT = ('static analysis: (D1) center_all interpreted on a symbolic table 
               'role parameters. (LOW) drop_low_coverage on every subset of five literal bin kinds, with and without a depth column, drops exactly'
               ' the bins with log2 < -15 or depth 0, on a copy; (STATE) no class-level or module-level container is written by the table classes '
               '(C10 rule: the X / Y labels a table caches are its own); the row-class tables stand for tables with any index, so row positions '
-              'used as labels (np.flatnonzero through .loc) are rejected. (CLI) the `call --center / sex` command line(s), through a model of '
-              'argparse built from the declarations in commands.py and the real _cmd_ body interpreted with readers, library step and writers '
-              'stubbed: the estimator (or `median` when --center has no value), --drop-low-coverage and the PAR genome reach center_all, '
-              "--center-at shifts instead; every file, -y and the PAR genome reach do_sex. Does not decide the Mood's-median-test inference under"
-              ' noise (statistical).')
+              'used as labels (np.flatnonzero through .loc) are rejected. The estimators center_all binds are also typed for translation (C19-D4 '
+              'rule): adding c to every value adds c to the estimate. `~` applied to the stated sex (a Python bool) is rejected in the shift_xx '
+              'table. (CLI) the `call --center / sex` command line(s), through a model of argparse built from the declarations in commands.py and'
+              ' the real _cmd_ body interpreted with readers, library step and writers stubbed: the estimator (or `median` when --center has no '
+              'value), --drop-low-coverage and the PAR genome reach center_all, --center-at shifts instead; every file, -y and the PAR genome '
+              "reach do_sex. Does not decide the Mood's-median-test inference under noise (statistical).")
 TECHNIQUE = "abstract interpretation with an opaque estimator (uniform-shift identity, argument provenance); registry agreement; decision tables; role-flow"
 
 CNA = "cnvlib.cnary.CopyNumArray"
